@@ -89,7 +89,7 @@ def cases(tier, seed):
 
     nrun = 180 if tier == "quick" else 30000
     for spec in workload.standard_cases(tier, seed, nrun, nrun, opts_fn=opts, frag_share=0.25,
-                                        p={"icode_prob": 0.2, "variant_prob": 0.3, "na_prob": 0.2, "waters": [0, 0, 2, 4]}):
+                                        p={"icode_prob": 0.2, "variant_prob": 0.3, "no_element_prob": 0.3, "nterm_amide_prob": 0.5, "na_prob": 0.2, "waters": [0, 0, 2, 4]}):
         spec["kind"] = "run"
         out.append(spec)
     # long stretches / whole chains of the real proteins
